@@ -53,6 +53,22 @@ def base_strategy():
         # table that ignores it is visible
         last = methods[-1]
         probes.insert(1, {"args": [draw(st.sampled_from(fit(p["ann"]) or corpus)) for p in last["pos"]], "kw": {}, "script": []})
+        # the LAST probe (the cache-miss call of the 'miss' scenario) walks a call_next chain: its target delegates with
+        # call_next in its own shape and a general fallback of that arity exists below it
+        star = next((m for m in methods if any(s["fn"] == "call_next" and s["npos"] == len(m["pos"]) for s in m["sites"])),
+                    methods[0])
+        if not any(s["fn"] == "call_next" and s["npos"] == len(star["pos"]) for s in star["sites"]):
+            star["sites"] = [{"fn": "call_next", "npos": len(star["pos"]), "kws": []}] + list(star["sites"])[:1]
+        k = next(i for i, s in enumerate(star["sites"]) if s["fn"] == "call_next" and s["npos"] == len(star["pos"]))
+        if not any(len(m["pos"]) == len(star["pos"]) and m is not star and all(p["ann"] == ["obj"] for p in m["pos"])
+                   for m in methods):
+            strict = bool(star["pos"]) and star["pos"][0].get("posonly")
+            nid = len(methods)
+            fb = {"id": nid, "prio": -1, "kw": [], "sites": [],
+                  "pos": [dict(p, ann=["obj"], name=(f"q{nid}_{j}" if strict else p["name"])) for j, p in enumerate(star["pos"])]}
+            methods.append(fb)
+        probes.append({"args": [draw(st.sampled_from(fit(p["ann"]) or corpus)) for p in star["pos"]], "kw": {},
+                       "script": [["site", k, "same"], ["site", 0, "same"]]})
         return {"methods": methods, "probes": probes}
 
     return _base()
